@@ -204,4 +204,22 @@ def pgRow (rf : Option (List Nat)) (rowCtx : Ctx) (cols : List (RowColumn × Opt
      | _ => .otherError)
   | none => pgRowLoop Generated.Typed.pgRowCtxCarried rf rowCtx 0 cols
 
+/-! ### columns without any setting (relay through decoder → encoder) -/
+
+/-- a column for which no setting is matched and nothing is revealed -/
+def plainColumn (colType : Nat) : RowColumn := ⟨none, fun _ => none, colType, 0⟩
+
+/-- PostgreSQL: the decoder → encoder subscribers on a column value without a setting (`err` = the row is refused) -/
+def pgChainNoSetting (binary : Bool) (d : Bytes) : Out Bytes :=
+  match (pgColumnChain Ctx.fresh (plainColumn 0) binary d).2 with
+  | .value w _ => .ok w
+  | _ => .err
+
+/-- MySQL: the decoder → encoder subscribers on a column value of type `colType` without a setting; the result is the
+value in its wire form (what the row processors append to the output) -/
+def myChainNoSetting (binary : Bool) (colType : Nat) (v : Bytes) : Out Bytes :=
+  match (myColumnChain Ctx.fresh (plainColumn colType) binary v).2 with
+  | .value w _ => .ok w
+  | _ => .err
+
 end AcraModel.Typed
